@@ -201,6 +201,72 @@ func perturb(r *RNG, raw tak.VerifRaw) tak.VerifRaw {
 	return q
 }
 
+// cancellingPair builds two positions on one board with the same tops, heights and side to move whose buried stones
+// differ on several squares in such a way that the per-square stack hashes XOR to the same value: the incremental
+// hash FIELD is equal although the boards differ (found by Gaussian elimination over GF(2) on the per-square
+// differences; 64 squares, one alternative stack each).  Equal must still say "different" (it compares the stacks),
+// and whatever shortcut trusts the hash field alone is exposed here.  ok=false when the 64 differences happen to be
+// independent.
+func cancellingPair(r *RNG) (a, b *tak.Position, ok bool) {
+	const size = 8
+	basis := tak.VerifBasis()
+	raw := tak.New(tak.Config{Size: size}).VerifRaw()
+	raw.Move = 2 + r.Intn(40)
+	raw.Height = make([]uint8, size*size)
+	raw.Stacks = make([]uint64, size*size)
+	alt := make([]uint64, size*size)
+	diff := make([]uint64, size*size)
+	at := func(i int, h uint8, st uint64) uint64 { return tak.VerifHash64(tak.VerifHash8(basis[i], h), st) }
+	for i := range raw.Height {
+		h := uint8(2 + r.Intn(4))
+		raw.Height[i] = h
+		mask := uint64(1)<<(h-1) - 1
+		raw.Stacks[i] = r.Next() & mask
+		alt[i] = raw.Stacks[i] ^ (1 + r.Next()%mask)
+		alt[i] &= mask
+		if alt[i] == raw.Stacks[i] {
+			alt[i] ^= 1
+		}
+		diff[i] = at(i, h, raw.Stacks[i]) ^ at(i, h, alt[i])
+		if r.Chance(1, 2) {
+			raw.White |= 1 << uint(i)
+		} else {
+			raw.Black |= 1 << uint(i)
+		}
+	}
+	// elimination: rows carry the set of squares they combine
+	type row struct{ v, set uint64 }
+	var pivots []row
+	var dep uint64
+	for i := range diff {
+		cur := row{diff[i], 1 << uint(i)}
+		for _, pv := range pivots {
+			if cur.v&(pv.v&-pv.v) != 0 {
+				cur.v ^= pv.v
+				cur.set ^= pv.set
+			}
+		}
+		if cur.v == 0 {
+			dep = cur.set
+			break
+		}
+		pivots = append(pivots, cur)
+	}
+	if dep == 0 {
+		return nil, nil, false
+	}
+	rb := raw
+	rb.Stacks = append([]uint64(nil), raw.Stacks...)
+	for i := range rb.Stacks {
+		if dep>>uint(i)&1 == 1 {
+			rb.Stacks[i] = alt[i]
+		}
+	}
+	ra := tak.VerifFromRaw(raw).VerifRehash()
+	rbb := tak.VerifFromRaw(rb).VerifRehash()
+	return tak.VerifFromRaw(ra), tak.VerifFromRaw(rbb), true
+}
+
 // dirtFor draws a position of p's size with stacks (what a reused buffer held before)
 func dirtFor(r *RNG, p *tak.Position) *tak.Position {
 	for try := 0; try < 4; try++ {
@@ -213,6 +279,21 @@ func dirtFor(r *RNG, p *tak.Position) *tak.Position {
 }
 
 func genC08(c *Ctx) {
+	// boards that differ in buried stones only and whose incremental hash fields coincide by construction
+	for k := c.Scale(24, 400); k > 0; k-- {
+		a, b, ok := cancellingPair(c.R)
+		if !ok {
+			c.Count("cancelling-pair.none")
+			continue
+		}
+		if a.VerifRaw().Hash == b.VerifRaw().Hash {
+			c.Count("cancelling-pair.same-hash-field")
+		} else {
+			c.Count("cancelling-pair.FAILED-to-cancel")
+		}
+		c.Count("cancelling-pair.equal=" + c.Emit("equal "+encPos(a)+" "+encPos(b)))
+		c.Emit("equal " + encPos(b) + " " + encPos(a))
+	}
 	n := c.Scale(5000, 500000)
 	for k := 0; k < n; k++ {
 		p := randomPosition(c.R)
